@@ -358,3 +358,43 @@ Proof.
   unfold Pb_hstep12 in H1. apply andb_true_iff in H1 as [A B]. split; [apply Pb_step_sound; exact A|].
   intro Hp. rewrite Hp in B. simpl in B. apply (leqb_eq avote_eqb avote_eqb_eq). exact B.
 Qed.
+
+(* ================================================================ histories with parameter edits *)
+
+(** The oracle parameters can be edited between two steps (MsgEditOracleParams; also to the zero values that
+    Params.Validate accepts: RewardBand 0, SlashFraction 0, MinValidPerWindow 0).  One observed step =
+    (parameters in force at the step, operation, observation, Votes store after it): every step is judged
+    under the parameters stored when it runs — the counters collected earlier in the window under other
+    parameters included. *)
+Fixpoint P_history12v (prev : sobs) (cast : list avote) (l : list (oparams * op * sobs * list avote)) : Prop :=
+  match l with
+  | [] => True
+  | (q, o, cur, vs) :: r => P_hstep12 q prev cast o cur vs /\ P_history12v cur (next_store q cast o) r
+  end.
+
+Fixpoint Pb_history12v (prev : sobs) (cast : list avote) (l : list (oparams * op * sobs * list avote)) : bool :=
+  match l with
+  | [] => true
+  | (q, o, cur, vs) :: r => Pb_hstep12 q prev cast o cur vs && Pb_history12v cur (next_store q cast o) r
+  end.
+
+Lemma Pb_hstep12_sound q prev cast o cur vs : Pb_hstep12 q prev cast o cur vs = true -> P_hstep12 q prev cast o cur vs.
+Proof.
+  unfold Pb_hstep12. intro H. apply andb_true_iff in H as [A B]. split; [apply Pb_step_sound; exact A|].
+  intro Hp. rewrite Hp in B. simpl in B. apply (leqb_eq avote_eqb avote_eqb_eq). exact B.
+Qed.
+
+Lemma Pb_history12v_sound : forall l prev cast, Pb_history12v prev cast l = true -> P_history12v prev cast l.
+Proof.
+  induction l as [|[[[q o] cur] vs] l IH]; intros prev cast H; [exact I|].
+  cbn [Pb_history12v P_history12v] in *. apply andb_true_iff in H as [H1 H2].
+  split; [apply Pb_hstep12_sound; exact H1 | apply IH; exact H2].
+Qed.
+
+(** with the same parameters at every step this is [P_history12] *)
+Lemma P_history12v_const q : forall l prev cast,
+  P_history12v prev cast (map (fun x => (q, fst (fst x), snd (fst x), snd x)) l) <-> P_history12 q prev cast l.
+Proof.
+  induction l as [|[[o cur] vs] l IH]; intros prev cast; [simpl; tauto|].
+  cbn [map P_history12v P_history12 fst snd]. rewrite IH. tauto.
+Qed.
